@@ -1471,7 +1471,7 @@ class ServiceClass:
                 # Ensure we are still associated
                 if (
                     self.assoc.acse.is_aborted()
-                    or self.assoc.acse.is_release_requested()
+                    or self.assoc.acse.is_release_requested(consume=False)
                 ):
                     LOGGER.debug(
                         "A-ABORT or A-RELEASE-RQ received during Q/R sub-operations"
